@@ -551,12 +551,26 @@ def main():
             stats["proved"] += 1
         stats["functions"] |= eng.stats["functions"]
 
-    def run_visitor_chain(method, rule, function, n):
+    def run_visitor_chain(method, rule, function, n, group_at=None):
+        """group_at: index of a term that is itself a parenthesised chain of the same operator (`a || (b || c)`): a term is a leaf
+        whatever it contains; None: opaque terms"""
         stats["scenarios"] += 1
-        desc = {"method": method, "chain_of": function, "terms": n}
+        desc = {"method": method, "chain_of": function, "terms": n, "parenthesised_same_operator_term": group_at}
         fn = find(r"^parser::<impl at [^>]*>::%s(#\d+)?$" % method)
         eng = rule_engine()
-        children = {j: [("id", "t%d" % j), ("term", j)] for j in range(n)}
+        eng.discriminants = dict(getattr(eng, "discriminants", {}) or {})
+        eng.discriminants.update({"Expr::Unspecified": 0, "Expr::Call": 1, "Expr::Comprehension": 2, "Expr::Ident": 3, "Expr::List": 4,
+                                  "Expr::Literal": 5, "Expr::Map": 6, "Expr::Select": 7, "Expr::Struct": 8})
+        S_ = lambda t: ("string", t)
+
+        def term_payload(j):
+            if group_at is None:
+                return ("term", j)
+            if j == group_at:
+                inner = [[("id", "g%d_%d" % (j, k)), ("enum", "Expr::Ident", [S_("p%d_%d" % (j, k))])] for k in range(2)]
+                return ("enum", "Expr::Call", [[S_(function), ("None",), ("vec", inner)]])
+            return ("enum", "Expr::Ident", [S_("v%d" % j)])
+        children = {j: [("id", "t%d" % j), term_payload(j)] for j in range(n)}
         cur.clear()
         cur.update({"events": [], "children": children, "attrs": {},
                     "ext": make_ext(rule, {"e": ("Some", ("ctxnode", 0)), "s9": ("None",), "s8": ("None",), "conditionalAnd": ("None",), "relation": ("None",),
@@ -572,8 +586,8 @@ def main():
 
         def walk(x, depth):
             depth_max[0] = max(depth_max[0], depth)
-            if isinstance(x, list) and len(x) == 2 and isinstance(x[1], tuple) and x[1][0] == "term":
-                seq.append(("t", x[1][1]))
+            if isinstance(x, (list, tuple)) and len(x) == 2 and isinstance(x[0], tuple) and x[0][0] == "id" and re.match(r"^t\d+$", str(x[0][1])):
+                seq.append(("t", int(x[0][1][1:])))
                 return
             if not (isinstance(x, list) and len(x) == 2 and isinstance(x[1], tuple) and x[1][0] == "enum" and x[1][1] == "Expr::Call"):
                 bad.append("a node is neither a term nor a call: %s" % (str(x)[:120],))
@@ -619,6 +633,7 @@ def main():
                     undecided.append("%s%r: %s" % (f.__name__, a, str(u)[:160]))
             return g
         run_prefix = guarded(run_prefix)
+        run_visitor_chain_g = guarded(run_visitor_chain)
         run_prefix("visit_LogicalNot", "LOGICAL_NOT")
         run_prefix("visit_Negate", "NEGATE")
         # the operand as a real expression: a parenthesised prefix expression of either operator, an identifier, a literal
@@ -639,7 +654,11 @@ def main():
             run_conditional(sh)
         for method, rule, function in (("visit_conditionalOr", "ConditionalOr", ops["LOGICAL_OR"]), ("visit_conditionalAnd", "ConditionalAnd", ops["LOGICAL_AND"])):
             for n in range(1, (64 if DEPTH <= 3 else 160) + 1):
-                run_visitor_chain(method, rule, function, n)
+                run_visitor_chain_g(method, rule, function, n)
+            # chains whose terms are real expressions, one of them a parenthesised chain of the same operator
+            for n in range(2, 6):
+                for g in range(n):
+                    run_visitor_chain_g(method, rule, function, n, g)
     except Unsupported as u:
         status = 2
         print("INCONCLUSIVE: unsupported: %s" % u)
